@@ -119,6 +119,7 @@ type Obligation struct {
 	Inputs  map[string]string `json:"inputs,omitempty"` // model values of named inputs (get-value)
 	getvals []string
 	quickOnly bool
+	effort    int
 }
 
 // Exec verifies one function.
@@ -214,6 +215,9 @@ func (x *Exec) oblige(st *State, kind, label string, n ast.Node, goal string) {
 	o.Size = len(o.query)
 	o.getvals = append([]string(nil), x.inputs...)
 	o.quickOnly = st.unknownCallee
+	if x.con != nil {
+		o.effort = x.con.Effort
+	}
 	x.obls = append(x.obls, o)
 }
 
